@@ -158,6 +158,21 @@ func (mc *c16Machine) checkConflicts(t *rapid.T, reps int) {
 	}
 	_, b2 := c16Body()
 	b2.CertRef = nil
+	// a profile member that is present but names nothing registered, under
+	// ONE member only (the others absent): always an error, never the default
+	for _, tag := range []string{"psa-profile", "eat-profile"} {
+		for _, name := range []string{"http://example.com/verif/never-registered", "PSA_IOT_PROFILE_9"} {
+			o := modelJN(b2)
+			o.keys = append(o.keys, tag)
+			o.vals = append(o.vals, jStr(name))
+			doc := []byte(o.String())
+			for i := 0; i < reps; i++ {
+				if c, err := psatoken.DecodeClaimsFromJSON(doc); err == nil {
+					mc.fail(t, "a JSON document whose %s names the unregistered profile %q was decoded as %T on call %d instead of being rejected", tag, name, c, i+1)
+				}
+			}
+		}
+	}
 	for _, d := range docs {
 		o := modelJN(b2)
 		o.keys = append(o.keys, d.a, d.b)
